@@ -6,14 +6,27 @@ Open Scope R_scope.
 Lemma Reqb_false x y : x <> y -> Reqb x y = false.
 Proof. intros H. unfold Reqb. destruct (Req_EM_T x y); [contradiction | reflexivity]. Qed.
 
+Lemma booly_horizontal x1 y1 x2 x y : x1 <> x2 ->
+  (GeomProj.Rleb y1 (yproj x1 y1 x2 y1 x y) && GeomProj.Rleb (yproj x1 y1 x2 y1 x y) y1) = true.
+Proof.
+  intros Hnv. rewrite (yproj_eq x1 y1 x2 y1 x y Hnv).
+  replace (y1 + lam x1 y1 x2 y1 x y * (y1 - y1)) with y1 by ring.
+  assert (E : GeomProj.Rleb y1 y1 = true) by (apply GeomProj.Rleb_true; lra). rewrite E. reflexivity.
+Qed.
+
 Lemma bridge x1 y1 x2 y2 x y : x1 <> x2 ->
   Geom.proj_segment RNum {| sx1 := x1; sy1 := y1; sx2 := x2; sy2 := y2 |} x y
   = GeomProj.proj_segment x1 y1 x2 y2 x y.
 Proof.
-  intros Hnv. unfold Geom.proj_segment, Geom.proj_line, GeomProj.proj_segment, incl, dline, xproj, yproj, BH_, yb_, norm_, c_, b_, a_,
-    cart_a, cart_b, cart_c, dist_pt, dist. cbn [sx1 sy1 sx2 sy2 RNum add sub mul div opp sqrt abs leb ltb eqb zero one].
+  intros Hnv. unfold Geom.proj_segment, Geom.proj_line, GeomProj.proj_segment, incl, dline, cart_a, cart_b, cart_c, dist_pt, dist.
+  cbn [sx1 sy1 sx2 sy2 RNum add sub mul div opp sqrt abs leb ltb eqb zero one].
   rewrite Reqb_false by lra.
-  reflexivity.
+  unfold Reqb. destruct (Req_EM_T y1 y2) as [E|E].
+  - subst y2. rewrite orb_true_r.
+    change Num.Rleb with GeomProj.Rleb.
+    pose proof (booly_horizontal x1 y1 x2 x y Hnv) as H.
+    unfold xproj, yproj, BH_, yb_, norm_, c_, b_, a_ in *. rewrite H. rewrite orb_true_l. reflexivity.
+  - rewrite orb_false_r. unfold xproj, yproj, BH_, yb_, norm_, c_, b_, a_. reflexivity.
 Qed.
 
 (* C20 for one non-vertical segment, stated on the generic model at the real instance *)
